@@ -95,11 +95,21 @@ def run(ctx):
         per = sim_num // sim_parts
         return _gen(ctx, "sim%d" % k, sim_defs, rand=per, seed=ctx.seed * 1000 + k, depth=sim_ops + 3, timeout=1200)
 
-    jobs = [lambda: vlib.build_harness(ctx), staggered(0, mc),
+    # programs that begin by freeing inode numbers: entries are created, some unlinked and forgotten (two numbers wait
+    # for re-use), then new entries are created - followed by random operations
+    pre_defs = dict(sim_defs)
+    pre_defs.update({NAMES2: 'Names = {"a", "b", "c"}', "MaxOps = %d" % sim_ops: "MaxOps = %d" % max(sim_ops, 16),
+                     "PreludeId = 0": "PreludeId = 1"})
+    pre_defs["MaxOps = 2"] = "MaxOps = %d" % max(sim_ops, 16)
+
+    def presim():
+        return _gen(ctx, "presim", pre_defs, rand=400 if t else 120, seed=ctx.seed * 1000 + 77, depth=max(sim_ops, 16) + 3, timeout=1200)
+
+    jobs = [lambda: vlib.build_harness(ctx), staggered(0, mc), staggered(1, presim),
             staggered(1, lambda: _gen(ctx, "bfs", {"MaxOps = 2": "MaxOps = %d" % bfs_ops}, timeout=900))]
     jobs += [staggered(2 + k, lambda k=k: sim(k)) for k in range(sim_parts)]
     out = vlib.parallel(jobs, max_workers=len(jobs))
-    bfs, sims = out[2], out[3:]
+    bfs, sims = out[3], [out[2]] + list(out[4:])
 
     n_bfs = _count(bfs)
     if n_bfs != BFS_EXPECTED[bfs_ops]:
